@@ -108,10 +108,17 @@ def _mixed_pick(rng, n):
     return old, rest
 
 
+def sl(el):
+    return '\n'.join(el)
+
+
+def tup(el):
+    return ', '.join(el) + (',' if len(el) == 1 else '')
+
+
 def families():
     F = []
     add = F.append
-    sl = lambda el: '\n'.join(el)
     # ---- statement bodies -------------------------------------------------------------------------------------------
     add(Fam('Module', 'body', lambda el: '\n'.join(el), lambda t: t, STMTS, sl, str, 1, default=True))
     blocks = [
@@ -158,7 +165,6 @@ def families():
     add(Fam('Match', 'cases', lambda el: 'match x:\n' + '\n'.join('    ' + c.replace('\n', '\n    ') for c in el), B0, cs[:4], sl, str, 1,
             default=True))
     # ---- expression sequences ---------------------------------------------------------------------------------------
-    tup = lambda el: ', '.join(el) + (',' if len(el) == 1 else '')
     add(Fam('Tuple', 'elts', lambda el: 'x = (' + tup(el) + ')', BV, EXPRS, tup, str, 0, default=True))
     add(Fam('List', 'elts', _fmt('x = [{X}]'), BV, EXPRS, tup, str, 0, default=True))
     add(Fam('Set', 'elts', lambda el: 'x = {' + ', '.join(el) + '}', BV, EXPRS, tup, str, 1, default=True))
@@ -303,6 +309,24 @@ def _pyslice(a, b, n):
     return slice(n if a == 'end' else a, None if b == 'end' else b)
 
 
+def _lines(code):
+    return code.split('\n')
+
+
+def _ast_code(fam, new):
+    """the new elements as a pure `ast` slice container (built by CPython only), for the families where one exists"""
+    try:
+        if fam.code is sl and fam.field in ('body', '_body', 'orelse', 'finalbody'):
+            return ast.parse('\n'.join(new))
+        if fam.code is tup and fam.kind in ('Tuple', 'List', 'Set'):
+            return ast.parse('(' + tup(new) + ')', mode='eval').body
+        if fam.name == 'Dict._all':
+            return ast.parse('{' + ', '.join(new) + '}', mode='eval').body
+    except SyntaxError:
+        return None
+    return None
+
+
 class _Skip(Exception):
     pass
 
@@ -314,35 +338,39 @@ def _elem(view, i):
     return x
 
 
-def _entries(fam, n, a, b, s, e, new, rng):
-    """[(name, callable(node) performing the edit)] for the request (raw a, raw b) = positions (s, e), new elements"""
+def _entries(fam, n, a, b, s, e, new, rng, conv=None, sfx='', so=False, with_single=True, bare=False):
+    """[(name, callable(node) performing the edit)] for the request (raw a, raw b) = positions (s, e), new elements.
+    `conv` turns the code source into another documented form of the code argument (list of lines, AST, FST; `sfx` names
+    it), `so` is the value passed for `one` in the slice forms (False or None), `bare`: the single new element is passed
+    without slice syntax with one=False (one element by coercion)."""
     k = len(new)
     field = fam.field
-    code = fam.code(new) if k else None
+    conv = conv or (lambda c: c)
+    code = conv(new[0] if bare else fam.code(new)) if k else None
     E = []
     view = lambda nd: getattr(nd, field)
     sl = _pyslice(a, b, n)
     if k:
-        E.append(('put_slice', lambda nd: nd.put_slice(code, a, b, field)))
-        E.append(('put', lambda nd: nd.put(code, a, b, field, one=False)))
+        E.append(('put_slice', lambda nd: nd.put_slice(code, a, b, field, one=so)))
+        E.append(('put', lambda nd: nd.put(code, a, b, field, one=so)))
         E.append(('view[a:b]=', lambda nd: view(nd).__setitem__(sl, code)))
-        E.append(('view[a:b].replace', lambda nd: view(nd)[sl].replace(code, one=False)))
+        E.append(('view[a:b].replace', lambda nd: view(nd)[sl].replace(code, one=so)))
         if fam.default:
             E.append(('node[a:b]=', lambda nd: nd.__setitem__(sl, code)))
-            E.append(('put_slice(default field)', lambda nd: nd.put_slice(code, a, b)))
+            E.append(('put_slice(default field)', lambda nd: nd.put_slice(code, a, b, one=so)))
         if s == e:
-            E.append(('insert', lambda nd: nd.insert(code, a, field, one=False)))
-            E.append(('view.insert', lambda nd: view(nd).insert(code, a, one=False)))
+            E.append(('insert', lambda nd: nd.insert(code, a, field, one=so)))
+            E.append(('view.insert', lambda nd: view(nd).insert(code, a, one=so)))
         if s == e == n:
-            E.append(('extend', lambda nd: nd.extend(code, field)))
-            E.append(('view.extend', lambda nd: view(nd).extend(code)))
+            E.append(('extend', lambda nd: nd.extend(code, field, one=so)))
+            E.append(('view.extend', lambda nd: view(nd).extend(code, one=so)))
         if s == e == 0:
-            E.append(('prextend', lambda nd: nd.prextend(code, field)))
-            E.append(('view.prextend', lambda nd: view(nd).prextend(code)))
+            E.append(('prextend', lambda nd: nd.prextend(code, field, one=so)))
+            E.append(('view.prextend', lambda nd: view(nd).prextend(code, one=so)))
         if (s, e) == (0, n):
             E.append(('attr=', lambda nd: setattr(nd, field, code)))
-        if k == 1 and fam.single is not None:
-            one = fam.single(new[0])
+        if k == 1 and fam.single is not None and with_single and not bare:
+            one = conv(fam.single(new[0]))
             E.append(('put_slice(one=True)', lambda nd: nd.put_slice(one, a, b, field, one=True)))
             E.append(('view[a:b].replace(one)', lambda nd: view(nd)[sl].replace(one)))
             if s == e:
@@ -382,6 +410,8 @@ def _entries(fam, n, a, b, s, e, new, rng):
                 E.append(('elem.replace(None)', lambda nd: _elem(view(nd), i).replace(None)))
             if fam.default:
                 E.append(('del node[i]', lambda nd: nd.__delitem__(i)))
+    if sfx or so is None or bare:
+        E = [(nm + sfx + ('(one=None)' if so is None else '') + ('(bare)' if bare else ''), fn) for nm, fn in E]
     return E
 
 
@@ -443,6 +473,23 @@ def run_family_case(arg):
                            ('put_slice(one=True)', lambda nd: nd.put_slice(one, a, b, fam.field, one=True))]
         else:
             entries = _entries(fam, n, a, b, s, e, new, rng)
+            if k:
+                # the other documented forms of the code argument: list of lines (by definition = the joined str), AST
+                entries += _entries(fam, n, a, b, s, e, new, rng, conv=_lines, sfx='[lines]')
+                astc = _ast_code(fam, new)
+                if astc is not None and rng.random() < 0.5:
+                    entries += _entries(fam, n, a, b, s, e, new, rng, conv=lambda c: astc, sfx='[AST]', with_single=False,
+                                        so=rng.choice([False, None]))
+                if rng.random() < 0.3:
+                    entries += _entries(fam, n, a, b, s, e, new, rng, so=None, with_single=False)
+                if k == 1 and fam.code is tup and not new[0].startswith('*'):
+                    # one element given WITHOUT slice syntax, one=False: put as one element (also when it is itself a
+                    # delimited sequence such as `[i]` or `(g, h)`), in str and in lines form, single- and multi-line
+                    entries += _entries(fam, n, a, b, s, e, new, rng, bare=True)
+                    entries += _entries(fam, n, a, b, s, e, new, rng, conv=_lines, sfx='[lines]', bare=True)
+                    if ', ' in new[0]:
+                        entries += _entries(fam, n, a, b, s, e, new, rng, conv=lambda c: _lines(c.replace(', ', ',\n ')),
+                                            sfx='[multiline lines]', bare=True)
         for name, fn in entries:
             tsrc = rng.choice(srcs)
             rec = {'fam': fam.name, 'tag': fam.tag, 'op': name, 'src': tsrc, 'a': a, 'b': b, 'new': new, 'n': n, 'k': k,
@@ -467,6 +514,241 @@ def run_family_case(arg):
                 rec['detail'] = str(ex)[:200]
             out.append(rec)
     return out
+
+
+def _exec_entries(fam, src, exp, entries, base):
+    out = []
+    for name, fn in entries:
+        rec = dict(base, op=name)
+        try:
+            root = _fst(src)
+            fn(fam.find(root.a).f)
+            got = _dump(root.a, fam)
+            if got != exp:
+                rec['fail'] = 'structure'
+                rec['detail'] = _first_diff(got, exp)
+        except _Skip:
+            continue
+        except NotImplementedError as ex:
+            if (fam.kind, fam.field) not in DOCUMENTED_NOT_IMPLEMENTED:
+                rec['fail'] = 'NotImplementedError'
+                rec['detail'] = str(ex)[:200]
+        except Exception as ex:
+            rec['fail'] = 'raised:' + type(ex).__name__
+            rec['detail'] = str(ex)[:200]
+        out.append(rec)
+    return out
+
+
+def run_form_product_case(fi):
+    """Deterministic: one family x fixed requests x every documented FORM of the code argument (str, list of lines, AST,
+    FST) x one in {False, None} (and True for a single element) x every entry point.  The expected result for lines is by
+    definition the result for the joined str; for AST / FST slice containers it is the result for the slice source."""
+    from fst import FST
+    fam = FAMILIES[fi]
+    if fam.blank_ops:
+        return []
+    rng = random.Random(fi)
+    render = fam.render
+    n = min(max(fam.minlen, 3), len(fam.pool) - 2)
+    if fam.pick:
+        old, rest = fam.pick(random.Random(7), n)
+        n = len(old)
+    else:
+        old, rest = fam.pool[:n], fam.pool[n:]
+    out = []
+    reqs = [(1, 2), (0, 0), (n, n), (0, n), (1, 1), (0, 1)]
+    news = [rest[:1], rest[:2]]
+    if fam.code is tup and fam.kind in ('Tuple', 'List', 'Set', 'Delete'):
+        news += [['[p, q]'], ['(p, q)']] + ([['{p, q}']] if fam.kind != 'Delete' else [])
+    for s_, e_ in reqs:
+        if s_ > n or e_ > n:
+            continue
+        for new in news:
+            want = old[:s_] + new + old[e_:]
+            if len(want) < fam.minlen or not new:
+                continue
+            try:
+                src = render(old)
+                exp = _dump(ast.parse(render(want)), fam)
+                ast.parse(src)
+            except SyntaxError:
+                continue
+            a, b = s_, ('end' if e_ == n else e_)
+            base = {'fam': fam.name, 'tag': fam.tag, 'src': src, 'a': a, 'b': b, 'new': new, 'n': n, 'k': len(new), 'layout': False,
+                    'want': want, 'product': True}
+            E = []
+            for so in (False, None):
+                E += _entries(fam, n, a, b, s_, e_, new, rng, so=so, with_single=so is False)
+                E += _entries(fam, n, a, b, s_, e_, new, rng, conv=_lines, sfx='[lines]', so=so, with_single=so is False)
+                astc = _ast_code(fam, new)
+                if astc is not None:
+                    E += _entries(fam, n, a, b, s_, e_, new, rng, conv=lambda c: astc, sfx='[AST]', so=so, with_single=False)
+                    mk = lambda: FST.fromast(ast.parse(ast.unparse(astc), mode='exec' if isinstance(astc, ast.Module) else 'eval')
+                                             if False else _copy_ast(astc))
+                    field = fam.field
+                    sl_ = _pyslice(a, b, n)
+                    E += [('put_slice[FST]' + ('(one=None)' if so is None else ''), (lambda so: lambda nd: nd.put_slice(mk(), a, b, field, one=so))(so)),
+                          ('view[a:b].replace[FST]' + ('(one=None)' if so is None else ''),
+                           (lambda so: lambda nd: getattr(nd, field)[sl_].replace(mk(), one=so))(so))]
+                    if so is False:
+                        E.append(('view[a:b]=[FST]', lambda nd: getattr(nd, field).__setitem__(sl_, mk())))
+            if len(new) == 1 and fam.code is tup and not new[0].startswith('*'):
+                E += _entries(fam, n, a, b, s_, e_, new, rng, bare=True)
+                E += _entries(fam, n, a, b, s_, e_, new, rng, conv=_lines, sfx='[lines]', bare=True)
+                if ', ' in new[0]:
+                    E += _entries(fam, n, a, b, s_, e_, new, rng, conv=lambda c: _lines(c.replace(', ', ',\n ')), sfx='[multiline lines]',
+                                  bare=True)
+            out += _exec_entries(fam, src, exp, E, base)
+    return out
+
+
+# ---- str NAME indexing of statement views --------------------------------------------------------------------------------
+
+_NAME_CONTAINERS = [
+    # key, header (None = module), find, docstring holder, fields
+    ('Module', None, lambda t: t, True, ('body', '_body')),
+    ('FunctionDef', 'def f():', B0, True, ('body', '_body')),
+    ('ClassDef', 'class C:', B0, True, ('body', '_body')),
+    ('AsyncFunctionDef', 'async def f():', B0, True, ('body', '_body')),
+    ('If', 'if x:', B0, False, ('body', '_body', 'orelse')),
+    ('For', 'for i in j:', B0, False, ('body', 'orelse')),
+    ('Try', 'try:', B0, False, ('body', 'finalbody')),
+]
+_NAME_SHAPES = ['sd', 'ds', 'sdc', 'dscs', 'sdKa', 'dKsd']       # s plain stmt, d def, c class, a async def, K class with a method
+
+
+def _name_elems(shape):
+    el, names = [], []
+    for i, k in enumerate(shape):
+        if k == 'd':
+            el.append(f'def n{i}(): pass')
+        elif k == 'c':
+            el.append(f'class n{i}: pass')
+        elif k == 'a':
+            el.append(f'async def n{i}(): pass')
+        elif k == 'K':
+            el.append(f'class n{i}:\n    def m(self): pass\n    y = {i}')
+        else:
+            el.append(f's{i} = {i}')
+        names.append(None if k == 's' else f'n{i}')
+    return el, names
+
+
+def _name_render(hdr, field, doc, el):
+    ind = lambda b, p: '\n'.join(p + l for l in b.split('\n'))
+    stm = (['"""doc"""'] if doc else []) + el
+    if hdr is None:
+        return '\n'.join(stm)
+    if field in ('body', '_body'):
+        tail = '\nfinally:\n    pass' if hdr == 'try:' else ''
+        return hdr + '\n' + '\n'.join(ind(b, '    ') for b in stm) + tail
+    if field == 'orelse':
+        return hdr + '\n    pass\nelse:\n' + '\n'.join(ind(b, '    ') for b in stm)
+    return hdr + '\n    pass\nfinally:\n' + '\n'.join(ind(b, '    ') for b in stm)
+
+
+def run_name_case(arg):
+    """(container index, field, doc, shape): every window (whole view, and view[w0:w1] incl. start > 0) x every name
+    (direct def/class names, the dotted name of a nested method, a missing name) x get / at / set / del by NAME.
+    Oracle: plain list of statement sources; the statement addressed is the first one in the window defining that name."""
+    ci, field, doc, shape = arg
+    kind, hdr, find, holder, _ = _NAME_CONTAINERS[ci]
+    el, names = _name_elems(shape)
+    out = []
+    # the list the view indexes: `body` includes the docstring statement, `_body` does not
+    pre = ['"""doc"""'] if (doc and field != '_body') else []
+    L = pre + el
+    Lnames = [None] * len(pre) + names
+    n = len(L)
+    src = _name_render(hdr, field, doc, el)
+    try:
+        ast.parse(src)
+    except SyntaxError:
+        return out
+    wins = [(None, None)] + [(a, b) for a in range(n + 1) for b in range(a, n + 1) if b > a]
+    queries = [nm for nm in names if nm] + [f'{nm}.m' for nm, k in zip(names, shape) if k == 'K'] + ['nope']
+    for w0, w1 in wins:
+        lo, hi = (0, n) if w0 is None else (w0, w1)
+        for q in queries:
+            top = q.split('.')[0]
+            idx = next((i for i in range(lo, hi) if Lnames[i] == top), None)
+            for op in ('get', 'at', 'set', 'del'):
+                rec = {'fam': f'{kind}.{field}', 'tag': 'name' + ('+docstr' if doc else ''), 'op': f'view[name] {op}', 'sigop': f'name-{op}',
+                       'src': src, 'a': w0, 'b': w1, 'new': [q], 'layout': False, 'name_args': [ci, field, doc, shape]}
+                # expected
+                if idx is None:
+                    expect = 'IndexError'
+                else:
+                    L2 = L[:]
+                    if '.' in q:
+                        i_ = int(top[1:])
+                        if op == 'set':
+                            L2[idx] = f'class {top}:\n    zz = 1\n    y = {i_}'
+                        elif op == 'del':
+                            L2[idx] = f'class {top}:\n    y = {i_}'
+                        target = 'def m(self): pass'
+                    else:
+                        if op == 'set':
+                            L2[idx] = 'zz = 1'
+                        elif op == 'del':
+                            del L2[idx]
+                        target = L[idx]
+                    if len(L2) < 1:
+                        continue
+                    expect = ast.dump(ast.parse(_name_render(hdr, field, False, L2) if pre or not doc else _name_render(hdr, field, True, L2)))
+                try:
+                    root = _fst(src)
+                    node = find(root.a).f
+                    v = getattr(node, field)
+                    if w0 is not None:
+                        v = v[w0:w1]
+                    if op == 'get':
+                        r = v[q]
+                    elif op == 'at':
+                        r = v.at(q)
+                    elif op == 'set':
+                        v[q] = 'zz = 1'
+                    else:
+                        del v[q]
+                    if expect == 'IndexError':
+                        rec['fail'] = 'no-IndexError'
+                        rec['detail'] = f'name {q!r} is not defined inside the window [{lo}:{hi}] but the operation was carried out'
+                    elif op in ('get', 'at'):
+                        got = ast.dump(r.a)
+                        want = ast.dump(ast.parse(target).body[0])
+                        if got != want:
+                            rec['fail'] = 'wrong-element'
+                            rec['detail'] = f'returned {got[:120]} instead of {want[:120]}'
+                    else:
+                        got = ast.dump(root.a)
+                        if got != expect:
+                            rec['fail'] = 'structure'
+                            rec['detail'] = _first_diff(got, expect)
+                except IndexError as ex:
+                    if expect != 'IndexError':
+                        rec['fail'] = 'raised:IndexError'
+                        rec['detail'] = str(ex)[:200]
+                except Exception as ex:
+                    rec['fail'] = 'raised:' + type(ex).__name__
+                    rec['detail'] = str(ex)[:200]
+                out.append(rec)
+    return out
+
+
+def name_items(full):
+    items = []
+    for ci, (kind, hdr, find, holder, fields) in enumerate(_NAME_CONTAINERS):
+        for field in fields:
+            for doc in ((False, True) if holder else (False,)):
+                for shape in (_NAME_SHAPES if full else _NAME_SHAPES[1:5]):
+                    items.append((ci, field, doc, shape))
+    return items
+
+
+def _copy_ast(a):
+    import copy
+    return copy.deepcopy(a)
 
 
 def run_optional_case(arg):
